@@ -229,6 +229,72 @@ func scenarioC02(r *Run) {
 		r.Outcome("seam-not-reached")
 		return
 	}
+	// the per-signer API used directly: Signature.Verify with the body
+	// protected bytes exactly as they were received (raw, possibly with a
+	// non-minimal length head) must build the same Sig_structure
+	if rc.MS != nil && len(rc.MS.Headers.RawProtected) > 0 {
+		for i, sg := range rc.MS.Signatures {
+			if i >= len(want) || sg == nil {
+				continue
+			}
+			sp := &SpyVerifier{Alg: spies[i].Alg, Fault: "accept"}
+			var derr error
+			r.Lib(func() { derr = sg.Verify(sp, rc.MS.Headers.RawProtected, rc.MS.Payload, external) })
+			if len(sp.Calls) == 1 {
+				r.Check()
+				if !bytes.Equal(sp.Calls[0].Content, want[i]) {
+					r.Fail("verify-content-differs/Signature.Verify-direct/"+population,
+						"Signature.Verify called directly with the received body protected bytes hands verifier %d content that differs from the reference Sig_structure\n got: %s\nwant: %s\nwire: %s", i, hexShort(sp.Calls[0].Content), hexShort(want[i]), hexShort(received))
+					return
+				}
+				r.Probe("direct-signature-verify-compared")
+			} else if derr == nil {
+				r.Fail("verifier-not-reached/Signature.Verify-direct", "Signature.Verify returned nil without consulting the verifier")
+				return
+			}
+		}
+	}
+	// re-signing with the Sign1 helpers from the decoded Headers: the raw
+	// protected bytes the caller supplies are what is signed and emitted
+	if rc.M1 != nil && len(rc.M1.Headers.RawProtected) > 0 && t.Bool(1, 3, "c02.helper") {
+		if a := refcose.Lookup(pm.ProtMap, refcose.LAlg); a != nil && a.IsInt() {
+			av, _ := a.Int64()
+			var hk *KeyPair
+			for _, k := range poolAll {
+				if k.Alg == av {
+					hk = k
+					break
+				}
+			}
+			if hk != nil {
+				spyS := &SpySigner{Inner: r.signerFor(hk, false), Alg: cose.Algorithm(av)}
+				hdrs := rc.M1.Headers
+				var out []byte
+				var herr error
+				untagged := spec.Kind == refcose.KSign1Untagged
+				r.Lib(func() {
+					if untagged {
+						out, herr = cose.Sign1Untagged(NewEntropy(5), spyS, hdrs, spec.Payload, external)
+					} else {
+						out, herr = cose.Sign1(NewEntropy(5), spyS, hdrs, spec.Payload, external)
+					}
+				})
+				if herr == nil && len(spyS.Calls) == 1 {
+					r.Check()
+					wantH := refcose.SigStructure1(pm.ProtBstr.Data, external, spec.Payload)
+					if !bytes.Equal(spyS.Calls[0].Content, wantH) {
+						r.Fail("sign-content-differs/helper-with-raw-protected", "Sign1 helper called with decoded Headers (raw protected bytes present): the signer was handed a Sig_structure that does not contain those bytes\n got: %s\nwant: %s", hexShort(spyS.Calls[0].Content), hexShort(wantH))
+						return
+					}
+					if m2, e := refcose.ParseMsg(spec.Kind, out); e == nil && !bytes.Equal(m2.ProtBstr.Data, pm.ProtBstr.Data) {
+						r.Fail("helper-emits-other-protected-bytes", "Sign1 helper called with decoded Headers emits protected bytes other than the raw ones supplied\n got: %x\nwant: %x", m2.ProtBstr.Data, pm.ProtBstr.Data)
+						return
+					}
+					r.Probe("helper-with-raw-protected-compared")
+				}
+			}
+		}
+	}
 	// a verifier that says no is final: it is consulted once, with the
 	// reference content, and its refusal is what Verify returns
 	{
